@@ -563,6 +563,34 @@ fn public_c01(sub: &mut Box<dyn DynSubject>, kind: Kind) -> Option<String> {
     None
 }
 
+/// C02 through the public API only: every (key, value) an entry iterator or a list-end accessor
+/// shows for a resident entry must be the value `peek` returns for that key
+fn public_c02(sub: &mut Box<dyn DynSubject>, kind: Kind) -> Option<String> {
+    let items = sub.public_items()?;
+    let nres = kind.resident_lists();
+    for (li, l) in items.iter().enumerate().take(nres) {
+        for (k, v) in l {
+            match sub.exec(&Op::Peek(*k, false), 0) {
+                Res::Val(Some(pv)) if pv == *v => {}
+                other => {
+                    return Some(format!("the iterator of '{}' shows key {} with value v{}, but peek({}) returns {}", kind.list_names()[li], k, v, k, other));
+                }
+            }
+        }
+    }
+    if kind == Kind::Lru {
+        for op in [Op::PeekLru, Op::PeekMru] {
+            if let Res::KV(Some((k, v))) = sub.exec(&op, 0) {
+                match sub.exec(&Op::Peek(k, false), 0) {
+                    Res::Val(Some(pv)) if pv == v => {}
+                    other => return Some(format!("{} shows ({}, v{}) but peek({}) returns {}", op, k, v, k, other)),
+                }
+            }
+        }
+    }
+    None
+}
+
 /// Run one history on a freshly built real cache. Never panics.
 pub fn run_history(cfg: &Cfg, kt: KeyType, ops: &[Op], opts: &RunOpts, cov: &mut Cov) -> RunOut {
     let props = opts.props;
@@ -603,6 +631,11 @@ pub fn run_history(cfg: &Cfg, kt: KeyType, ops: &[Op], opts: &RunOpts, cov: &mut
             if props.c01 {
                 if let Some(d) = public_c01(&mut sub, kind) {
                     out.violations.push(Violation { prop: "C01".into(), rule: "public-view".into(), sig: format!("C01|{}|public-view|new", kind.name()), detail: format!("fresh cache ({}): {}", cfg.describe(), d), step: 0 });
+                }
+            }
+            if props.c02 {
+                if let Some(d) = public_c02(&mut sub, kind) {
+                    out.violations.push(Violation { prop: "C02".into(), rule: "public-view".into(), sig: format!("C02|{}|public-view|new", kind.name()), detail: format!("fresh cache ({}): {}", cfg.describe(), d), step: 0 });
                 }
             }
             return out;
@@ -747,6 +780,11 @@ pub fn run_history(cfg: &Cfg, kt: KeyType, ops: &[Op], opts: &RunOpts, cov: &mut
                 if props.c01 {
                     if let Some(d) = public_c01(&mut sub, kind) {
                         viol!("C01", "public-view", i, op, pc, "after {}: {} (state before: {})", op, d, pre.describe(kind));
+                    }
+                }
+                if props.c02 {
+                    if let Some(d) = public_c02(&mut sub, kind) {
+                        viol!("C02", "public-view", i, op, pc, "after {}: {} (state before: {})", op, d, pre.describe(kind));
                     }
                 }
                 break 'ops;
@@ -1100,6 +1138,11 @@ pub fn run_history(cfg: &Cfg, kt: KeyType, ops: &[Op], opts: &RunOpts, cov: &mut
                 let pr = probes.as_ref().unwrap();
                 if let Some(a) = &pr.alias {
                     viol!("C02", "borrowed-forms-disagree", i, op, pc, "{} (after {})", a, op);
+                }
+                if i % 5 == 0 {
+                    if let Some(d) = public_c02(&mut sub, kind) {
+                        viol!("C02", "public-view", i, op, pc, "after {}: {}", op, d);
+                    }
                 }
                 for (ui, k) in uni.iter().enumerate() {
                     let (c1, c2) = pr.contains[ui];
